@@ -28,6 +28,7 @@ func c15Gen(rt *rapid.T) wProg {
 	p := wProg{}
 	p.Cfg = wConfig{Users: 3, NoPush: true, Calls: !gPct(rt, 8), CallTimeout: gPick(rt, []int{3, 3, 8}, "timeout"), Root: gPct(rt, 25)}
 	p.Sess = append([]int(nil), gPick(rt, [][]int{{0, 1, 2}, {0, 0, 1, 1, 2}, {0, 1, 1, 2}, {0, 0, 1, 2}}, "layout")...)
+	gGrpc(rt, &p, 20)
 	first := map[int]int{}
 	for s, u := range p.Sess {
 		if _, ok := first[u]; !ok {
@@ -146,7 +147,25 @@ func c15Gen(rt *rapid.T) wProg {
 				maybeNoise(e)
 			}
 		}
+		stuck := -1
+		if gPct(rt, 10) {
+			// one party stops reading while the other keeps writing: its queue is (nearly) full when the call ends
+			stuck = gPick(rt, []int{a, b}, "stuck")
+			writer, wt, st := a, ta, tb
+			if stuck == a {
+				writer, wt, st = b, tb, ta
+			}
+			p.Ops = append(p.Ops, wOp{K: "sub", S: stuck, T: st}, wOp{K: "pause", S: stuck},
+				wOp{K: "flood", S: writer, T: wt, N: gPick(rt, []int{100, 120, 124, 125, 126, 127, 128, 129, 130, 140}, "fill")})
+		}
 		switch x := gInt(rt, 0, 99, "end"); {
+		case stuck >= 0:
+			// the party which still reads ends the call (a paused connection sends nothing either)
+			if stuck == a {
+				p.Ops = append(p.Ops, wOp{K: "note", S: b, T: tb, A: "call", B: "hang-up", M: 1})
+			} else {
+				p.Ops = append(p.Ops, wOp{K: "note", S: a, T: ta, A: "call", B: "hang-up", M: 1})
+			}
 		case x < 35:
 			p.Ops = append(p.Ops, wOp{K: "note", S: a, T: ta, A: "call", B: "hang-up", M: 1})
 		case x < 70:
@@ -155,6 +174,9 @@ func c15Gen(rt *rapid.T) wProg {
 			p.Ops = append(p.Ops, wOp{K: "tick", N: 9000})
 		case x < 90:
 			p.Ops = append(p.Ops, wOp{K: gPick(rt, []string{"leave", "disc"}, "how"), S: gPick(rt, []int{a, b}, "who"), T: ta})
+		}
+		if stuck >= 0 {
+			p.Ops = append(p.Ops, wOp{K: "resume", S: stuck})
 		}
 		maybeNoise(e)
 	}
